@@ -95,6 +95,35 @@ func (e *Enc) encodeCall(c *ssa.CallCommon, instr ssa.Instruction, pos token.Pos
 	return res
 }
 
+// atClausesForModelled: call-site clauses for library functions that have a precise model (they do not
+// go through applyCall). Only arg0, arg1, ... are bound.
+func (e *Enc) atClausesForModelled(name string, c *ssa.CallCommon, args []Val, argTypes []types.Type, pre *State, pos token.Pos) {
+	if e.fc == nil {
+		return
+	}
+	ord := e.callOrdinal(name, instrOf(c, e.curBlock))
+	for i, at := range e.fc.At {
+		if at.Callee != name && at.Callee != fmt.Sprintf("%s#%d", name, ord) {
+			continue
+		}
+		e.atHit[i] = true
+		cenv := e.fnEnv(pre)
+		for j, a := range args {
+			cenv.vars[fmt.Sprintf("arg%d", j)] = TV{T: e.coerce(a), Typ: argTypes[j]}
+		}
+		t, err := cenv.Eval(at.Clause.Expr)
+		label := at.Clause.Label
+		if label == "" {
+			label = "a" + itoa(i)
+		}
+		if err != nil {
+			e.contractError(e.name, at.Clause, err, pos)
+			continue
+		}
+		e.oblige("at", name+"/"+label, pos, t.T, at.Clause.Props, "at "+name+" requires "+at.Clause.Src)
+	}
+}
+
 // noteCall records the first result of the latest call per callee (lastresult) and, for callees
 // that some contract counts, the number of calls made by this activation (calls).
 func (e *Enc) noteCall(name string, results []Val) {
@@ -218,7 +247,9 @@ func (e *Enc) encodeCall1(c *ssa.CallCommon, instr ssa.Instruction, pos token.Po
 	// precise models of a few library functions
 	if kind == "extern" {
 		if m, ok := externModels[name]; ok {
+			pre := e.cur.clone()
 			if res, handled := m(e, c, args, pos); handled {
+				e.atClausesForModelled(name, c, args, argTypes, pre, pos)
 				return res
 			}
 		}
